@@ -104,6 +104,21 @@ def eq(a, b):
     return O.same(np.array(a, dtype=object), np.array(b, dtype=object))
 
 
+def corner_sessions(X, C, D, case):
+    """corner cases of a session list (the statements quantify over ALL statistics): a session without any frame
+    (all-zero counts and sums) and two sessions with exactly equal occupation counts"""
+    from fractions import Fraction as Fr_
+    if len(X) >= 2 and case % 3 == 1:
+        s = X[0]
+        s.n = np.array([Fr_(0)] * C, dtype=object)
+        s.sum_px = np.array([[Fr_(0)] * D for _ in range(C)], dtype=object)
+        s.sum_pxx = np.array([[Fr_(0)] * D for _ in range(C)], dtype=object)
+        s.t = 0
+    if len(X) >= 2 and case % 3 == 2:
+        X[-1].n = X[-2].n.copy()
+    return X
+
+
 def mode_enroll_blocks(p):
     """C07.block.{y,x,z}, C07.order, C07.return: enrol == the reference block updates in the stated order"""
     O.install()
@@ -113,7 +128,7 @@ def mode_enroll_blocks(p):
             for iters in (1, 2, 3):
                 rs = np.random.RandomState(SEED * 100 + cases)
                 m = O.mk_machine(rs, kind, C, D, rU, rV, enroll_iterations=iters)
-                X = [O.mk_stats(rs, C, D) for _ in range(H)]
+                X = corner_sessions([O.mk_stats(rs, C, D) for _ in range(H)], C, D, cases)
                 got = m.enroll(X)
                 y, xs, z, _ = Ref(m).enroll(X, iters, kind == "jfa")
                 cases += 1
@@ -190,6 +205,10 @@ def mode_phases(p):
                 for _ in range(sz):
                     X.append(O.mk_stats(rs, C, D))
                     y.append(k)
+            if ncls == 3:
+                X[-1].n = X[0].n.copy()        # two sessions with exactly equal occupation counts
+                if sizes[0] >= 2:
+                    X[1].n = X[0].n.copy()
             n_acc, f_acc = m._sum_n_statistics(X, y, ncls), m._sum_f_statistics(X, y, ncls)
             ref = Ref(m)
             n = C * D
